@@ -37,6 +37,12 @@ Theorem C20_fatal_read_zero : forall c evs evs',
 Proof. exact fatal_read_zero. Qed.
 Print Assumptions C20_fatal_read_zero.
 
+(* while the interface is down nothing rests in any staged queue *)
+Theorem C20_down_holds_nothing : forall c evs,
+  s_up (reached c evs) = false -> resting (s_peers (reached c evs)) = vzero.
+Proof. exact down_holds_nothing. Qed.
+Print Assumptions C20_down_holds_nothing.
+
 (* no pool ever gets back more than it handed out (counting form of "no buffer is owned by two packets") *)
 Theorem C20_no_double_owner : forall c evs,
   let a := s_acc (reached c evs) in
@@ -51,8 +57,24 @@ Theorem C20_inbound_pools_idle : forall c evs,
 Proof. exact inbound_pools_idle. Qed.
 Print Assumptions C20_inbound_pools_idle.
 
+(* With stragglers: containers that a receive routine / SendStagedPackets which had passed the isRunning test left in a
+   stopped peer's autodraining queues behind Stop's terminator (event EStraggle).  The counts are the idle baseline +
+   staged packets + what rests in the queues of configured peers + what removed peers' queues hold until the finalisers
+   ran; Peer.Start (EUp) and the finalisers (EGC) give everything back. *)
+Theorem C20_total_conservation : forall c evs,
+  let x := xreached c evs in
+  xoutstanding x = vadd (vadd (base_of (x_s x)) (resting (s_peers (x_s x)))) (vadd (lsum (x_lost x)) (x_garbage x)).
+Proof. exact total_conservation. Qed.
+Print Assumptions C20_total_conservation.
+
+(* after Close and the queue finalisers (runtime.GC), whatever happened before, in between and afterwards: zero *)
+Theorem C20_closed_gc_zero : forall c evs evs1 evs2,
+  xoutstanding (xreached c (evs ++ EClose :: evs1 ++ EGC :: evs2)) = vzero.
+Proof. exact closed_gc_zero. Qed.
+Print Assumptions C20_closed_gc_zero.
+
 (* the model's own traces satisfy the executable specification that is evaluated on the implementation's counts *)
-Theorem C20_model_meets_spec : forall c evs, holdsb c (model_trace (init c) evs) = true.
+Theorem C20_model_meets_spec : forall c evs, holdsb c (model_trace (xinit c) evs) = true.
 Proof. exact model_meets_spec. Qed.
 Print Assumptions C20_model_meets_spec.
 
@@ -61,11 +83,21 @@ Print Assumptions C20_model_meets_spec.
 Example C20_nonvacuous :
   let c := {| c_tun := 2; c_bind := 4; c_nrecv := 2 |} in
   map (fun x => (buf (o_counts (snd x)), outC (o_counts (snd x))))
-      (model_trace (init c)
+      (model_trace (xinit c)
          [EAddPeer 1 false; EAddPeer 2 true; EUp; ETun [TRoute 1; TRoute 1; TDrop 0; TRoute 2; TRoute 9];
           ENet [DHs 3 1; DSkip 0; DData 1 1 0]; ENet [DData 1 1 0; DData 1 1 3; DHs 1 2]; ENet [DData 2 2 1];
           ESetNonce 1 (RejectAfterMessages - 1); ETun [TRoute 1; TRoute 1]; EDown; EUp; ERemovePeer 2; EClose; EGC])
   = [(4,0); (4,0); (13,1); (16,3); (14,2); (14,2); (12,0); (12,0); (13,1); (4,0); (13,1); (12,0); (0,0); (0,0)].
+Proof. vm_compute. reflexivity. Qed.
+
+(* stragglers: left in the queues while the device is down, flushed by Up; left again, removed with the peer (garbage),
+   still outstanding after Close, zero after the finalisers *)
+Example C20_stragglers :
+  let c := {| c_tun := 1; c_bind := 1; c_nrecv := 2 |} in
+  map (fun x => (inE (o_counts (snd x)), buf (o_counts (snd x)), outC (o_counts (snd x))))
+      (model_trace (xinit c)
+         [EAddPeer 1 false; EUp; EDown; EStraggle 1 2 3; EUp; EDown; EStraggle 1 1 0; ERemovePeer 1; EClose; EGC])
+  = [(0,1,0); (0,3,0); (0,1,0); (2,6,1); (0,3,0); (0,1,0); (1,2,0); (1,2,0); (1,1,0); (0,0,0)].
 Proof. vm_compute. reflexivity. Qed.
 
 (* the staged queue drops its oldest container at QueueStagedSize *)
